@@ -180,6 +180,8 @@ impl Searcher {
                 game_state: State,
                 best_move: Option<Move>,
                 search_depth: usize,
+                #[cfg(weechess_verif)]
+                verif_index: usize,
             }
 
             // This is a variation of lazy SMP. We rely on the non-determanistic
@@ -200,6 +202,8 @@ impl Searcher {
                     } else {
                         None
                     },
+                    #[cfg(weechess_verif)]
+                    verif_index: i,
                 })
                 .collect();
 
@@ -207,6 +211,9 @@ impl Searcher {
                 thread_data
                     .into_par_iter()
                     .map(|data| {
+                        #[cfg(weechess_verif)]
+                        let _verif_guard =
+                            transpositions.verif_enter(data.verif_index, thread_count);
                         let game_state = data.game_state;
                         let best_move = data.best_move;
                         let search_depth = data.search_depth;
@@ -347,6 +354,8 @@ impl Searcher {
     ) -> Result<eval::Evaluation, SearchInterrupt> {
         // We're searching a new node here
         *nodes_searched += 1;
+        #[cfg(weechess_verif)]
+        token.verif_on_node();
 
         // To avoid spending a lot of time waiting for atomic operations,
         // let's avoid checking the cancellation token in the lower leaf nodes
@@ -660,6 +669,8 @@ struct SearchInterrupt;
  */
 struct TranspositionTableAccess {
     tables: Vec<RwLock<TranspositionTable>>,
+    #[cfg(weechess_verif)]
+    verif_sched: std::sync::Mutex<Option<Arc<verif::Sched>>>,
 }
 
 impl TranspositionTableAccess {
@@ -676,15 +687,21 @@ impl TranspositionTableAccess {
         assert!(tables.len() > 0);
         Self {
             tables: tables.into_iter().map(RwLock::new).collect(),
+            #[cfg(weechess_verif)]
+            verif_sched: std::sync::Mutex::new(None),
         }
     }
 
     fn insert(&self, hash: Hash, entry: TranspositionEntry) {
+        #[cfg(weechess_verif)]
+        self.verif_yield();
         let index = hash as usize % self.tables.len();
         self.tables[index].write().unwrap().insert(hash, entry);
     }
 
     fn find(&self, hash: Hash) -> Option<TranspositionEntry> {
+        #[cfg(weechess_verif)]
+        self.verif_yield();
         let index = hash as usize % self.tables.len();
         self.tables[index].read().unwrap().find(hash).copied()
     }
@@ -904,12 +921,16 @@ pub struct SearchArtifact {
 #[derive(Clone)]
 struct CancellationToken {
     cancelled: Arc<AtomicBool>,
+    #[cfg(weechess_verif)]
+    verif_probe: Option<Arc<verif::CancelProbe>>,
 }
 
 impl CancellationToken {
     fn new() -> (Self, Self) {
         let token = Self {
             cancelled: Arc::new(AtomicBool::new(false)),
+            #[cfg(weechess_verif)]
+            verif_probe: None,
         };
 
         (token.clone(), token)
@@ -1160,3 +1181,6 @@ mod tests {
         }
     }
 }
+
+#[cfg(weechess_verif)]
+pub mod verif;
